@@ -185,12 +185,16 @@ class History:
         else:
             buf = io.StringIO()
             o = outcome(lambda: (f(v, buf), buf.getvalue())[1])
-        self.calls.append(('dump', variant, kind, j % 4, o))
+        self.calls.append(('dump', variant, kind, j % 5, o))
         return o
 
 
 def dump_value(ns, variant, j):
-    j = j % 4
+    j = j % 5
+    if j == 4:
+        # the same list twice: YAML dumps write an anchor and an alias, JSON dumps abort in the middle of the emission
+        shared = [1, 'two']
+        return {'a': shared, 'b': [shared]}
     try:
         if variant % 3 == 0:
             return [ns['K0'](1), ns['K1'](2, 2.5, 'z'), {'k': ns['K0'](3, 'y')}, object()][j]
@@ -289,7 +293,7 @@ def reference_outcomes():
                 h.new_load(variant, top)
                 ref[('load', variant % 3, top, d)] = h.call_load(0, docs[top].index(d))
         for kind in ('dumps', 'dumps_json', 'dump', 'dump_json'):
-            for j in range(4):
+            for j in range(5):
                 h = History()
                 h.new_dump(variant, kind)
                 ref[('dump', variant % 3, kind, j)] = h.call_dump(0, j)
